@@ -177,6 +177,10 @@ type goBuilder struct {
 	nvar    int
 	objs    map[string]string // "type#ref" -> variable
 	imports map[string]bool
+	// bounded witnesses for map-valued locations: term -> witness constants
+	mapWit   map[string][]string
+	newFacts []string
+	newDecls []string
 }
 
 func (g *goBuilder) val(term string) (string, bool) {
@@ -342,8 +346,34 @@ func (g *goBuilder) build(term string, t types.Type, depth int) string {
 		if ref == 0 {
 			return fmt.Sprintf("%s(nil)", g.typeStr(t))
 		}
-		g.fail = "map-valued inputs are not materialised by the replay generator"
-		return "nil"
+		mi := vc.mapInfo(t)
+		dh, okd := vc.heap0[mi.dn]
+		if !okd {
+			return fmt.Sprintf("%s{}", g.typeStr(t))
+		}
+		// candidate keys: the closed key terms with which this map heap is indexed anywhere in the query
+		// (keys the query never mentions cannot matter for the failing clause)
+		cands := g.keyTerms(dh.S)
+		vh, okv := vc.heap0[mi.vn]
+		var sets []string
+		seenKey := map[string]bool{}
+		for _, kt := range cands {
+			b, okb := g.val(fmt.Sprintf("(select (select %s %s) %s)", dh.S, term, kt))
+			if !okb || b != "true" {
+				continue
+			}
+			kexpr := g.build(kt, mi.K, depth+1)
+			if seenKey[kexpr] {
+				continue
+			}
+			seenKey[kexpr] = true
+			vexpr := "*new(" + g.typeStr(mi.V) + ")"
+			if okv {
+				vexpr = g.build(fmt.Sprintf("(select (select %s %s) %s)", vh.S, term, kt), mi.V, depth+1)
+			}
+			sets = append(sets, fmt.Sprintf("m[%s] = %s", kexpr, vexpr))
+		}
+		return fmt.Sprintf("func() %s { m := %s{}; %s; return m }()", g.typeStr(t), g.typeStr(t), strings.Join(sets, "; "))
 	case *types.Interface:
 		tag, ok := g.intv("(itag " + term + ")")
 		if !ok {
@@ -366,13 +396,15 @@ func (g *goBuilder) build(term string, t types.Type, depth int) string {
 
 // specToGo renders a contract expression as Go source evaluated inside the test.
 type goRender struct {
-	p       *Prog
-	vc      *VC
-	fail    string
-	funcs   map[string]string // helper functions for defines
-	order   []string
-	depth   int
-	helpers bool
+	p         *Prog
+	vc        *VC
+	fail      string
+	funcs     map[string]string // helper functions for defines
+	order     []string
+	depth     int
+	helpers   bool
+	oldSuffix string // when set, old(e) is rendered as e with parameters renamed to <param><suffix>
+	inOld     bool
 }
 
 func (r *goRender) expr(x ast.Expr) string {
@@ -385,6 +417,11 @@ func (r *goRender) expr(x ast.Expr) string {
 	case *ast.BasicLit:
 		return e.Value
 	case *ast.Ident:
+		if r.inOld && r.vc != nil {
+			if _, isParam := r.vc.paramTerm[e.Name]; isParam {
+				return e.Name + r.oldSuffix
+			}
+		}
 		return e.Name
 	case *ast.SelectorExpr:
 		return r.expr(e.X) + "." + e.Sel.Name
@@ -438,7 +475,37 @@ func (r *goRender) expr(x ast.Expr) string {
 		case "chanclosed":
 			r.helpers = true
 			return "govcChanClosed(" + r.expr(e.Args[0]) + ")"
-		case "old", "lold", "fresh", "all", "any", "has", "seq", "seqeq", "unchanged", "card", "box", "allocated", "chancap":
+		case "has":
+			return "func() bool { _, ok := " + r.expr(e.Args[0]) + "[" + r.expr(e.Args[1]) + "]; return ok }()"
+		case "all":
+			// all(k, T, imp(has(m, k), body))  ->  range over m
+			if len(e.Args) == 3 {
+				if imp, ok := e.Args[2].(*ast.CallExpr); ok {
+					if iid, ok := imp.Fun.(*ast.Ident); ok && iid.Name == "imp" && len(imp.Args) == 2 {
+						if hc, ok := imp.Args[0].(*ast.CallExpr); ok {
+							if hid, ok := hc.Fun.(*ast.Ident); ok && hid.Name == "has" && len(hc.Args) == 2 {
+								if kid, ok := hc.Args[1].(*ast.Ident); ok && kid.Name == e.Args[0].(*ast.Ident).Name {
+									k := kid.Name
+									return fmt.Sprintf("func() bool { for %s := range %s { _ = %s; if !(%s) { return false } }; return true }()", k, r.expr(hc.Args[0]), k, r.expr(imp.Args[1]))
+								}
+							}
+						}
+					}
+				}
+			}
+			r.fail = "clause uses all(), which the replay generator can only evaluate in the form all(k, T, has(m, k) ==> body)"
+			return "false"
+		case "old":
+			if r.oldSuffix != "" {
+				saved := r.inOld
+				r.inOld = true
+				out := r.expr(e.Args[0])
+				r.inOld = saved
+				return out
+			}
+			r.fail = "clause uses old()"
+			return "false"
+		case "lold", "fresh", "any", "seq", "seqeq", "unchanged", "card", "box", "allocated", "chancap":
 			r.fail = "clause uses " + id.Name + "(), which the replay generator cannot evaluate in Go"
 			return "false"
 		case "min", "max":
@@ -520,10 +587,11 @@ func (p *Prog) tryReplay(o *Obligation, rep *ReplayRecord, repo, dir string) (re
 	if sig.TypeParams().Len() > 0 || sig.RecvTypeParams().Len() > 0 {
 		return false, "generic function: replay not generated"
 	}
-	g := &goBuilder{p: p, vc: vc, o: o, vals: modelVals{}, needSet: map[string]bool{}, pkg: fi.Pkg.Types, objs: map[string]string{}, imports: map[string]bool{}}
+	g := &goBuilder{p: p, vc: vc, o: o, vals: modelVals{}, needSet: map[string]bool{}, pkg: fi.Pkg.Types, objs: map[string]string{}, imports: map[string]bool{}, mapWit: map[string][]string{}}
 	var argExprs []string
-	for round := 0; round < 8; round++ {
+	for round := 0; round < 12; round++ {
 		g.need, g.decls, g.objs, g.nvar, g.fail = nil, nil, map[string]string{}, 0, ""
+		g.newFacts, g.newDecls = nil, nil
 		argExprs = nil
 		for _, in := range vc.inputs {
 			argExprs = append(argExprs, g.build(in.Term.S, in.Term.T, 0))
@@ -531,7 +599,15 @@ func (p *Prog) tryReplay(o *Obligation, rep *ReplayRecord, repo, dir string) (re
 		if g.fail != "" {
 			return false, "model not materialisable: " + g.fail
 		}
-		if len(g.need) == 0 {
+		if len(g.newFacts) > 0 {
+			// strengthen the candidate-model query (only possible for relaxed queries: the witnesses restrict models)
+			no := *o
+			no.Facts = append(append([]string(nil), o.Facts...), g.newFacts...)
+			no.Decls = append(append([]string(nil), o.Decls...), g.newDecls...)
+			o = &no
+			g.o = o
+		}
+		if len(g.need) == 0 && len(g.newFacts) == 0 {
 			break
 		}
 		vals, err := p.u.evalTerms(o, append(keysOf(g.vals), g.need...))
@@ -544,7 +620,7 @@ func (p *Prog) tryReplay(o *Obligation, rep *ReplayRecord, repo, dir string) (re
 			g.needSet[k] = true
 		}
 	}
-	if len(g.need) > 0 {
+	if len(g.need) > 0 || len(g.newFacts) > 0 {
 		return false, "model evaluation did not converge"
 	}
 	// witness
@@ -650,7 +726,7 @@ func (p *Prog) tryReplay(o *Obligation, rep *ReplayRecord, repo, dir string) (re
 	rep.ReplayTest = testFile
 	ctx, cancel := context.WithTimeout(context.Background(), 240*time.Second)
 	defer cancel()
-	cmd := exec.CommandContext(ctx, "go", "test", "-overlay", ovFile, "-vet=off", "-count=1", "-timeout", "60s", "-run", "^TestGovcReplay$", ".")
+	cmd := exec.CommandContext(ctx, "go", "test", "-v", "-overlay", ovFile, "-vet=off", "-count=1", "-timeout", "60s", "-run", "^TestGovcReplay$", ".")
 	cmd.Dir = pkgDir
 	cmd.Env = append(os.Environ(), "GOFLAGS=-mod=mod", "GOPROXY=off", "GOSUMDB=off", "GOTOOLCHAIN=local")
 	var buf bytes.Buffer
@@ -738,3 +814,36 @@ func govcChanClosed(ch any) bool {
 }
 
 `
+
+// keyTerms collects the closed terms T occurring as (select (select <domHeap> X) T) in the obligation.
+func (g *goBuilder) keyTerms(domHeap string) []string {
+	text := strings.Join(g.o.Facts, "\n") + "\n" + g.o.Goal
+	needle := "(select (select " + domHeap + " "
+	var out []string
+	seen := map[string]bool{}
+	for idx := 0; ; {
+		i := strings.Index(text[idx:], needle)
+		if i < 0 {
+			break
+		}
+		p := idx + i + len(needle)
+		x := firstSExpr(text[p:])
+		p += len(x)
+		// skip ")" and whitespace
+		for p < len(text) && (text[p] == ')' || text[p] == ' ') {
+			if text[p] == ')' {
+				p++
+				break
+			}
+			p++
+		}
+		t := firstSExpr(strings.TrimLeft(text[p:], " "))
+		idx = p
+		if t == "" || seen[t] || strings.Contains(t, "!q") || strings.Contains(t, "k!") || strings.Contains(t, "x!") || strings.Contains(t, "wf!") || strings.Contains(t, "r!") || strings.Contains(t, "i!") {
+			continue
+		}
+		seen[t] = true
+		out = append(out, t)
+	}
+	return out
+}
